@@ -25,8 +25,8 @@ CLAIMS = {
   note="Trusted: Coq kernel+VM; hand model of auto.rs ReadVersion and rewind.rs (tied by sampling); harness scripted stream; hook verif_read_version. The clause 'answered identically to a single-protocol server' rests on hyper itself (R2) and is exercised end-to-end under C01 only. Genuine defect D1 (fragmented preface => HTTP/1) was found by this model and fixed in /repo (856f863). No axioms.",
   technique="Coq proof (loop invariant over arbitrary read scripts) + differential correspondence", ref="DESIGN.md 4/C08, 3.4, appendix C"),
  "C18": dict(
-  text="Coq theorems for every adapter stack of the model, every inner stream/script and every outer op sequence: delivered bytes ++ still-unread bytes is invariant (no loss, duplication, reordering, invention), the inner writer holds exactly the accepted bytes in order (also for vectored writes), per-op bounds, TokioIo filled/initialised bookkeeping, EOF/Pending/error propagation. Tied to the real TokioIo (both directions, nested), Rewind, TlsBraid, client and server Stream wrappers by per-operation differential runs against a scripted inner stream.",
-  note="Trusted: Coq kernel+VM; hand model (forwarding adapters are identity in the model, so for them the theorem is only as strong as the correspondence run); absence of UB in the unsafe blocks is not expressible (R1); real TCP/Unix/duplex sockets under Braid are exercised by C01 only. No axioms.",
+  text="Coq theorems for every adapter stack of the model, every inner stream/script and every outer op sequence: delivered bytes ++ still-unread bytes is invariant (no loss, duplication, reordering, invention), the inner writer holds exactly the accepted bytes in order (also for vectored writes), per-op bounds, TokioIo filled/initialised bookkeeping, EOF/Pending/error propagation. Tied to the real TokioIo (both directions, nested), Rewind, TlsBraid, client and server Stream wrappers by per-operation differential runs against a scripted inner stream, and to the real in-process DuplexStream pipe (bare and under the wrappers) with writes / vectored writes against back-pressure, the far end drained and compared.",
+  note="Trusted: Coq kernel+VM; hand model (forwarding adapters are identity in the model, so for them the theorem is only as strong as the correspondence run); absence of UB in the unsafe blocks is not expressible (R1); real TCP/Unix sockets under Braid are exercised by C01 only. No axioms.",
   technique="Coq proof (FIFO refinement invariant over op sequences) + per-op differential correspondence", ref="DESIGN.md 4/C18, 3.4"),
  "C13": dict(
   text="Coq theorem for every request record and both connection protocols: the model of the layer stack SetHostHeader -> Http2Checks -> Http1Checks satisfies the executable C13 monitor (origin-form target with path/query preserved and '/' for an empty path, authority-form for CONNECT, Host = URI host + port unless the scheme's default and never overriding the caller's, HTTP/2: version 2, hop-by-hop headers and Host removed, CONNECT rejected, everything else untouched); protocol choice = H2 iff requested or ALPN h2. Tied to the real public layers (stub connection) over a URI/method/version/header grammar and to the real HttpConnectionBuilder over a duplex with scripted ALPN, compared in the kernel.",
